@@ -413,3 +413,49 @@ package badger
 //@   assert[kv-version] before call ParseTs : arg0 == ret(SafeCopy#1)
 //@   assert[kv-value] before call SafeCopy#2 : arg1 == e.Value
 //@   note C32: light mode; trie.Get is used under an assumed contract (ids whose pattern matches the key given); exactly-once and commit order across batches are not covered
+
+// ---- read-only opens change nothing (C07, second sentence): every file-mutating primitive
+// reachable from Open, reads and Close is guarded by "not read-only" ----
+
+//@ func revertToManifest
+//@   props C07
+//@   light
+//@   assert[readonly-guard] before call Remove : !kv.opt.ReadOnly
+
+//@ func helpOpenOrCreateManifestFile
+//@   props C07
+//@   light
+//@   assert[readonly-guard-truncate] before call Truncate : !readOnly
+//@   assert[readonly-guard-create] before call helpRewrite : !readOnly
+
+//@ func createDirs
+//@   props C07
+//@   light
+//@   assert[readonly-guard] before call MkdirAll : !opt.ReadOnly
+
+//@ func acquireDirectoryLock
+//@   props C07
+//@   light
+//@   assert[readonly-guard] before call WriteFile : !readOnly
+
+//@ func (*valueLog).open
+//@   props C07
+//@   light
+//@   assert[readonly-guard-delete] before call Delete : !vlog.opt.ReadOnly
+//@   assert[readonly-guard-truncate] before call Truncate : !vlog.opt.ReadOnly
+//@   assert[readonly-guard-create] before call createVlogFile : !vlog.opt.ReadOnly
+
+//@ func (*logFile).Truncate
+//@   props C07
+//@   light
+//@   assert[readonly-guard] before call Truncate : !lf.opt.ReadOnly
+
+//@ func (*memTable).UpdateSkipList
+//@   props C07 C08
+//@   light
+//@   assert[readonly-no-shrink] before call Truncate : mt.opt.ReadOnly ==> ret0(iterate#1) >= mt.wal.size.v
+//@   assert[truncate-at-replay-end] before call Truncate : arg0 == mt.wal && arg1 == int64(ret0(iterate#1))
+
+// Option copies: set from the caller's Options when the structure is created and never changed
+// afterwards (the only later store, lf.opt = vlog.opt in valueLog.open, copies the same value).
+//@ stable badger.DB.opt badger.valueLog.opt badger.logFile.opt badger.memTable.opt
